@@ -20,4 +20,114 @@ example : runHist [.nextRec, .reset 1 12, .nextRec, .nextChunk] = [.blob [97, 97
 /-- BeforeFirst in the middle of a chunk restarts the part -/
 example : runHist [.nextRec, .nextRec, .beforeFirst, .nextRec] =
     [.blob [97, 97, 97, 0], .blob [98, 98, 98, 10], .done, .blob [97, 97, 97, 0]] := by decide
+
+/-! ### non-vacuity of the theorems of Props/C05.lean on the history of defect F1
+
+`st0` = the fresh bare split over `[f1file]`, part 0 of 1, 2-word buffer; `st1` = after one `NextRecord`
+(the rest "bbb\n" of the first chunk is buffered); then `ResetPartition(20, 24)` (an empty part),
+`ResetPartition(0, 1)` and `BeforeFirst`.  All hypotheses are closed by kernel evaluation. -/
+
+def dummySt : St := { base := { files := [], chunk := { dataWords := 0 }, bufWords := 0 } }
+def getSt : Except Err St → St
+  | .ok s => s
+  | .error _ => dummySt
+
+private theorem eq_ok_of_okOf {α : Type} {r : Except Err α} {s : α} (h : okOf r = some s) : r = .ok s := by
+  cases r with
+  | error e => cases h
+  | ok a => injection h with h; rw [h]
+
+private theorem wrapEquiv_none {a b : Option Wrap} (ha : a = none) (hb : b = none) : WrapEquiv a b := by
+  rw [ha, hb]; trivial
+
+def st0 : St := getSt (mkSt Fmt.text [f1file] 0 1 2 false 4)
+def st1 : St := (step Fmt.text st0 .nextRec).1
+/-- after `ResetPartition(20, 24)`: an empty part -/
+def st2 : St := (step Fmt.text st1 (.reset 20 24)).1
+/-- after `ResetPartition(0, 1)` instead -/
+def st3 : St := (step Fmt.text st1 (.reset 0 1)).1
+/-- after `BeforeFirst` instead -/
+def st4 : St := (step Fmt.text st1 .beforeFirst).1
+def fresh2 : St := getSt (mkSt Fmt.text [f1file] 20 24 2 false 4)
+/-- the same history behind `SingleThreadedInputSplit` -/
+def sw0 : St := getSt (mkSt Fmt.text [f1file] 0 1 2 true 4)
+def sw1 : St := (step Fmt.text sw0 .nextRec).1
+def sw2 : St := (step Fmt.text sw1 (.reset 20 24)).1
+def freshW2 : St := getSt (mkSt Fmt.text [f1file] 20 24 2 true 4)
+
+/-- something IS buffered before the calls -/
+example : st1.base.chunk.rest = [98, 98, 98, 10] := by decide
+example : sw1.wrap.map (fun w => w.chunk.map (fun c => c.rest)) = some (some [98, 98, 98, 10]) := by decide
+
+private theorem h12 : step Fmt.text st1 (.reset 20 24) = (st2, .done) := by decide
+private theorem h13 : step Fmt.text st1 (.reset 0 1) = (st3, .done) := by decide
+private theorem h14 : step Fmt.text st1 .beforeFirst = (st4, .done) := by decide
+private theorem hw12 : step Fmt.text sw1 (.reset 20 24) = (sw2, .done) := by decide
+private theorem hf2 : mkSt Fmt.text [f1file] 20 24 2 false 4 = .ok fresh2 := eq_ok_of_okOf (by decide)
+private theorem hfw2 : mkSt Fmt.text [f1file] 20 24 2 true 4 = .ok freshW2 := eq_ok_of_okOf (by decide)
+
+/-- `C05_beforeFirst_clean`, `C05_reset_clean` on the state with a buffered chunk -/
+example : Clean st4.base := by
+  have h : beforeFirst st1.base = .ok st4.base := eq_ok_of_okOf (by decide)
+  exact (C05_beforeFirst_clean st1.base st4.base h (by decide)).1
+example : Clean st2.base := by
+  have h : resetPartition Fmt.text st1.base 20 24 = .ok st2.base := eq_ok_of_okOf (by decide)
+  exact (C05_reset_clean Fmt.text seekOk_text st1.base st2.base 20 24 (by decide) h).1
+
+/-- `C05_nothing_stale`, bare and wrapped, on the F1 history -/
+example : st2.base.chunk.rest = [] ∧ st2.base.overflow = [] ∧ (∀ w, st2.wrap = some w → w.chunk = none) :=
+  C05_nothing_stale Fmt.text st1 st2 (.reset 20 24) (Or.inr ⟨20, 24, rfl⟩) h12
+example : sw2.base.chunk.rest = [] ∧ sw2.base.overflow = [] ∧ (∀ w, sw2.wrap = some w → w.chunk = none) :=
+  C05_nothing_stale Fmt.text sw1 sw2 (.reset 20 24) (Or.inr ⟨20, 24, rfl⟩) hw12
+example : st4.base.chunk.rest = [] ∧ st4.base.overflow = [] ∧ (∀ w, st4.wrap = some w → w.chunk = none) :=
+  C05_nothing_stale Fmt.text st1 st4 .beforeFirst (Or.inl rfl) h14
+
+/-- `C05_reset_mkSt` (hence `C05_reset`): the object after `ResetPartition(20, 24)` against the freshly
+constructed object for part 20 of 24, bare and wrapped -/
+example (pick : Nat → Bool) : (drain Fmt.text pick st2).2 = (drain Fmt.text pick fresh2).2 :=
+  C05_reset_mkSt Fmt.text extractNoneIff_text st1 st2 20 24 h12 [f1file] 2 4 false (by decide) (by decide)
+    fresh2 hf2 (wrapEquiv_none (by decide) (by decide)) pick
+example (pick : Nat → Bool) : (drain Fmt.text pick sw2).2 = (drain Fmt.text pick freshW2).2 :=
+  C05_reset_mkSt Fmt.text extractNoneIff_text sw1 sw2 20 24 hw12 [f1file] 2 4 true (by decide) (by decide)
+    freshW2 hfw2
+    (by
+      have h1 : sw2.wrap = some { bufWords := 4 } := by decide
+      have h2 : freshW2.wrap = some { bufWords := 4 } := by decide
+      rw [h1, h2]; exact ⟨rfl, trivial⟩) pick
+/-- … and what both deliver is nothing -/
+example : okOf (drain Fmt.text (fun _ => true) fresh2).2 = some [] := by decide
+
+/-- `C05_empty_part` on the F1 history, bare and wrapped -/
+example (pick : Nat → Bool) : (drain Fmt.text pick st2).2 = .ok [] :=
+  C05_empty_part Fmt.text extractNoneIff_text st1 st2 (.reset 20 24) (Or.inr ⟨20, 24, rfl⟩) h12 (by decide) pick
+example (pick : Nat → Bool) : (drain Fmt.text pick sw2).2 = .ok [] :=
+  C05_empty_part Fmt.text extractNoneIff_text sw1 sw2 (.reset 20 24) (Or.inr ⟨20, 24, rfl⟩) hw12 (by decide) pick
+
+/-- `C05_reset_any_two`: the object in the middle of its first chunk against the untouched one -/
+example : ∃ t', step Fmt.text st0 (.reset 20 24) = (t', .done) ∧
+    ∀ pick : Nat → Bool, (drain Fmt.text pick st2).2 = (drain Fmt.text pick t').2 :=
+  C05_reset_any_two Fmt.text extractNoneIff_text st1 st0 st2 20 24 (by decide) (by decide)
+    (wrapEquiv_none (by decide) (by decide)) h12
+
+/-- `C05_beforeFirst`: after `BeforeFirst` in the middle of a chunk the object is the fresh one again -/
+example (pick : Nat → Bool) : (drain Fmt.text pick st4).2 = (drain Fmt.text pick st0).2 :=
+  C05_beforeFirst Fmt.text extractNoneIff_text st1 st4 h14 (by decide) st0 (by unfold Clean; decide)
+    (by decide) (by decide) (by decide) (by decide) (wrapEquiv_none (by decide) (by decide)) pick
+
+/-- `C05_range_stable` -/
+example : st4.base.offBegin = 0 ∧ st4.base.offEnd = 12 := by
+  have h := C05_range_stable Fmt.text st1 .beforeFirst (fun k n h => by cases h)
+  rw [h14] at h
+  exact ⟨h.2.1.trans (by decide), h.2.2.trans (by decide)⟩
+
+/-- `C05_reset_text_ok`, `C05_reset_text_lines`: `ResetPartition(0, 1)` in the middle of the first chunk -/
+example : ∃ s', step Fmt.text st1 (.reset 0 1) = (s', .done) :=
+  C05_reset_text_ok [f1file] (by decide) (by decide) (by decide) st1 (by decide) 0 1 (by decide) (by decide)
+example (pick : Nat → Bool) : ∃ bs s'', drain Fmt.text pick st3 = (s'', .ok bs) ∧
+      bs.flatMap canon = lines (rangeStream true [f1file] (bndT [f1file] 1 0) (bndT [f1file] 1 1)) ∧
+      (∀ (i : Nat) (b : Bytes), bs[i]? = some b → b ≠ []) :=
+  C05_reset_text_lines [f1file] (by decide) (by decide) st1 st3 (by decide) (by decide) (by decide) 0 1
+    (by decide) (by decide) h13 pick
+example : lines (rangeStream true [f1file] (bndT [f1file] 1 0) (bndT [f1file] 1 1))
+    = [[97, 97, 97], [98, 98, 98], [99, 99, 99]] := by decide
 end DmlcModel.Props.C05
